@@ -2844,6 +2844,8 @@ bool ParseN2kPGN126996(const tN2kMsg& N2kMsg, unsigned short &N2kVersion, unsign
                      int ModelVersionSize, char *ModelVersion, int ModelSerialCodeSize, char *ModelSerialCode,
                      unsigned char &CertificationLevel, unsigned char &LoadEquivalency) {
   if (N2kMsg.PGN!=N2kPGNProductInformation) return false;
+  // Product information has fixed length. Shorter message would leave fields, which did not fit, unset.
+  if (N2kMsg.DataLen<2+2+Max_N2kModelID_len+Max_N2kSwCode_len+Max_N2kModelVersion_len+Max_N2kModelSerialCode_len+1+1) return false;
 
   int Index=0;
   N2kVersion=N2kMsg.Get2ByteUInt(Index);
